@@ -54,7 +54,9 @@ def run(ctx):
                 "with hostile partial names, values and export names, widgets of one field on one or two pages; module Interactive "
                 "is the reference reading of 12.5 / 12.7: each page's /Annots lists exactly the authored annotations in order with "
                 "the authored subtype, rectangle and decoded text entries, /AcroForm /Fields lists each authored field once "
-                "under its decoded name with the authored type, value and kind flags, every widget names its field as /Parent.  "
+                "under its decoded name with the authored type, value and kind flags, every widget names its field as /Parent; a field "
+                "filled after assembly (Document::fill_field) carries the filled text as /V and each of its widgets an /AP /N form "
+                "XObject of the widget's size whose content (lexed by PdfLex) shows exactly that text.  "
                 "Tagged documents (MCDoc.DocT): pages of 1-3 marked-content sequences and a structure tree of 3-5 elements of "
                 "varying shape owning them across pages; module Tagged is the reference reading of 14.7: the hierarchy under "
                 "/StructTreeRoot is the authored tree (types, /P back-links, kids in order, marked-content references, decoded "
@@ -184,6 +186,16 @@ def run(ctx):
 
     vlib.expect_reject(ctx, "syntax", "FileTrace", tp, tag_owner, "an authored marked-content reference moved to another structure element", marker="file")
     vlib.expect_reject(ctx, "syntax", "FileTrace", tp, tag_shape, "an authored structure element hung under another parent", marker="file")
+    def fill_text(evs):
+        for e in evs:
+            if e["ev"] == "file" and e["built"]:
+                for f in e["prog"].get("fields", []):
+                    if f.get("fill"):
+                        f["fill"][0] += 1
+                        return True
+        return False
+
+    vlib.expect_reject(ctx, "syntax", "FileTrace", tp, fill_text, "one character of the text a field was filled with changed", marker="file")
     vlib.expect_reject(ctx, "syntax", "FileTrace", tp, annot_text, "one character of an authored annotation text changed", marker="file")
     vlib.expect_reject(ctx, "syntax", "FileTrace", tp, annot_order, "two authored annotations of a page swapped", marker="file")
     vlib.expect_reject(ctx, "syntax", "FileTrace", tp, field_name, "one character of an authored field name changed", marker="file")
